@@ -24,6 +24,9 @@ var localVars = make(map[string]string)
 var formalParameters = make(map[string]string)
 var localVarScopes []map[string]string
 
+// created types of names that have no declaration in sight (`x = new Foo()`), per function
+var assignedTypes = make(map[string]string)
+
 var currentClzExtend = ""
 var currentMethod core_domain.CodeFunction
 var methodMap = make(map[string]core_domain.CodeFunction)
@@ -51,6 +54,7 @@ func NewJavaFullListener(nodes map[string]core_domain.CodeDataStruct, file strin
 	localVars = make(map[string]string)
 	formalParameters = make(map[string]string)
 	localVarScopes = nil
+	assignedTypes = make(map[string]string)
 	creatorMethodMap = make(map[string]core_domain.CodeFunction)
 	currentType = ""
 	currentCreatorNode = *core_domain.NewDataStruct()
@@ -351,6 +355,7 @@ func enterFunctionScope() {
 	}
 	formalParameters = make(map[string]string)
 	localVars = make(map[string]string)
+	assignedTypes = make(map[string]string)
 }
 
 func (s *JavaFullListener) EnterConstructorDeclaration(ctx *parser.ConstructorDeclarationContext) {
@@ -483,7 +488,8 @@ func getMethodMapName(method core_domain.CodeFunction) string {
 }
 
 func (s *JavaFullListener) EnterCreator(ctx *parser.CreatorContext) {
-	// `x = new Foo()`: remember the created type for x. A creation in any other position
+	// `x = new Foo()`: remember the created type for x; it stands in for a declaration of x that
+	// is not in sight and never replaces a declared type. A creation in any other position
 	// (an argument, an initializer, a receiver) says nothing about its left neighbour.
 	variableName := ""
 	if assign, ok := ctx.GetParent().GetParent().(*parser.ExpressionContext); ok {
@@ -496,7 +502,7 @@ func (s *JavaFullListener) EnterCreator(ctx *parser.CreatorContext) {
 	for _, identifier := range allIdentifiers {
 		createdName := identifier.GetText()
 		if variableName != "" {
-			localVars[variableName] = createdName
+			assignedTypes[variableName] = createdName
 		}
 
 		buildCreatorCall(createdName, ctx)
